@@ -335,7 +335,7 @@ func init() {
 		},
 		RequiredCounters: []string{"packages_built_ok", "packages_with_parser", "packages_lexer_only", "option_pairs_covered",
 			"feat:lookahead", "feat:precedence", "feat:error-recovery", "feat:template-flag", "feat:named-set", "feat:lexer-exclusive-state",
-			"feat:mid-rule-action", "feat:typed-nonterminal-action", "feat:input-no-eoi", "feat:interface-categories", "feat:field-assign"},
+			"feat:lexer-without-space-rules", "feat:mid-rule-action", "feat:typed-nonterminal-action", "feat:input-no-eoi", "feat:interface-categories", "feat:field-assign"},
 		CPUBudget: 1200,
 		Run:       c17Run,
 		Post:      c17Post,
